@@ -9,15 +9,18 @@
 (* shipped language is shown is a found, non-empty text naming the same       *)
 (* placeholders as the English text.  FunctionAgrees: the functions used by   *)
 (* the contract (Found/Text/Shown) compute what the machine computes.         *)
-(* Impl = "nofallback" (no English fallback) is the negative control: TLC     *)
-(* must reject it, otherwise Holds is vacuous.                                *)
+(* impl = "nofallback" (a lookup without the English fallback) is the         *)
+(* negative control, explored in the same run: TLC must find a state of it    *)
+(* that violates the body of Holds (recorded with TLCSet, demanded by the     *)
+(* POSTCONDITION ControlBites), otherwise Holds is vacuous.  Run with one     *)
+(* worker (TLCSet registers are per worker).                                  *)
 EXTENDS I18nTable
 
-CONSTANTS Impl,          \* "asis" | "nofallback"
-          NTexts         \* how many of AllTexts (4 quick, 6 thorough)
+CONSTANTS NTexts         \* how many of AllTexts (4 quick, 6 thorough)
 
-VARIABLES cat, kind, lang, pc, txt, found, shown
-vars == <<cat, kind, lang, pc, txt, found, shown>>
+VARIABLES impl, cat, kind, lang, pc, txt, found, shown
+vars == <<impl, cat, kind, lang, pc, txt, found, shown>>
+Impls == {"asis", "nofallback"}
 
 Shipped == {"en", "fr"}
 Kinds   == {"T", "L"}
@@ -37,38 +40,43 @@ Site == [kind |-> kind, key |-> "k", kc |-> KC, live |-> TRUE]
 FK   == FullKey(kind, "k", KC)
 FKC  == IF kind = "L" THEN LabelDot \o KC ELSE KC
 
-Init == /\ cat \in Cats /\ kind \in Kinds /\ lang \in Shipped
+Init == /\ TLCSet(7, FALSE)
+        /\ impl \in Impls /\ cat \in Cats /\ kind \in Kinds /\ lang \in Shipped
         /\ pc = "lang" /\ txt = <<>> /\ found = FALSE /\ shown = <<>>
 
 TryLang == /\ pc = "lang"                                  \* text, ok := messages[key][lang]
            /\ IF Has(C, FK, lang)
               THEN txt' = cat[FK][lang] /\ found' = TRUE /\ pc' = "render"
-              ELSE UNCHANGED <<txt, found>> /\ pc' = IF Impl = "nofallback" THEN "key" ELSE "en"
-           /\ UNCHANGED <<cat, kind, lang, shown>>
+              ELSE UNCHANGED <<txt, found>> /\ pc' = IF impl = "nofallback" THEN "key" ELSE "en"
+           /\ UNCHANGED <<impl, cat, kind, lang, shown>>
 
 TryEn   == /\ pc = "en"                                    \* text, ok = messages[key]["en"]
            /\ IF Has(C, FK, "en")
               THEN txt' = cat[FK]["en"] /\ found' = TRUE /\ pc' = "render"
               ELSE UNCHANGED <<txt, found>> /\ pc' = "key"
-           /\ UNCHANGED <<cat, kind, lang, shown>>
+           /\ UNCHANGED <<impl, cat, kind, lang, shown>>
 
 UseKey  == /\ pc = "key"                                   \* text = key
            /\ txt' = FKC /\ pc' = "render"
-           /\ UNCHANGED <<cat, kind, lang, found, shown>>
+           /\ UNCHANGED <<impl, cat, kind, lang, found, shown>>
 
 Render  == /\ pc = "render"                                \* strings.TrimPrefix(translated, prefix + ".")
            /\ shown' = Shown(kind, txt) /\ pc' = "done"
-           /\ UNCHANGED <<cat, kind, lang, txt, found>>
+           /\ UNCHANGED <<impl, cat, kind, lang, txt, found>>
 
 Next == TryLang \/ TryEn \/ UseKey \/ Render
 Spec == Init /\ [][Next]_vars
 
-Holds == (pc = "done" /\ TableFailures(C, Shipped, Site) = {}) =>
+HoldsBody == (pc = "done" /\ TableFailures(C, Shipped, Site) = {}) =>
             /\ found
             /\ txt # <<>>
             /\ Placeholders(txt) = Placeholders(cat[FK]["en"])
+Holds == impl = "asis" => HoldsBody
 
-FunctionAgrees == pc = "done" =>
+Bites        == (impl = "nofallback" /\ ~HoldsBody) => TLCSet(7, TRUE)       \* listed as an invariant; always TRUE
+ControlBites == TLCGet(7) = TRUE                                            \* POSTCONDITION
+
+FunctionAgrees == (impl = "asis" /\ pc = "done") =>
             /\ found = Found(C, FK, lang)
             /\ found => (txt = Text(C, FK, lang) /\ shown = Shown(kind, Text(C, FK, lang)))
 =============================================================================
